@@ -1,63 +1,3 @@
-/-
-  Props/C12.lean — one clock: every timestamp and duration comes from the configured TimeKeeper.
-  In the model the only source of time is `now` (a TimeKeeper reading, recorded in `Obs.readings`); these theorems
-  show that every time handed to opener, closer and collectors — on every entry point — is such a reading taken
-  during that very call, and every duration the difference of two of them.
--/
-import CircuitProofs.Props.CircuitCommon
-import CircuitProofs.Lemmas.CircuitC
-namespace CM.Props.C12
-open CM CM.SpecCircuit CM.Props
-
-theorem execute_timestamps_are_readings {σo σc : Type} (O : OpenerI σo) (C : CloserI σc) (c : Circ σo σc) (op : ExecOp) :
-    let r := execute O C c op.ctx op.run op.fb
-    verdictC12 r.2.1.emits r.2.1.readings = none := by
-  intro r
-  apply verdictC12_of_prov
-  cases h : c.cfg.disabled with
-  | true =>
-    have he : r.2.1.emits = [] := by
-      show (execute O C c op.ctx op.run op.fb).2.1.emits = []
-      rw [execute_disabled O C c _ _ _ h]
-      cases op.run <;> rfl
-    intro e hm
-    rw [he] at hm
-    cases hm
-  | false => exact (execute_spec O C c op.ctx op.run op.fb h).prov
-
-theorem openCircuit_timestamps_are_readings {σo σc : Type} (O : OpenerI σo) (C : CloserI σc) (c : Circ σo σc) :
-    let r := manualOpen O C c
-    verdictC12 r.2.emits r.2.readings = none ∧ r.2.readings = [c.clock] := by
-  intro r
-  have hr : r = openCircuit O C (now ((c, {}) : St σo σc)).2 c.clock := rfl
-  have hm : c.clock ∈ (now ((c, {}) : St σo σc)).2.2.readings := now_mem _
-  refine ⟨verdictC12_of_prov ?_, ?_⟩
-  · rw [hr]
-    exact (rel_openCircuit O C _ c.clock hm).prov ((rel_now _).prov prov_init)
-  · rw [hr, openCircuit_readings]
-    rfl
-
-theorem closeCircuit_timestamps_are_readings {σo σc : Type} (O : OpenerI σo) (C : CloserI σc) (c : Circ σo σc) :
-    let r := manualClose O C c
-    verdictC12 r.2.emits r.2.readings = none ∧ r.2.readings = [c.clock] := by
-  intro r
-  have hr : r = closeCircuit O C (now ((c, {}) : St σo σc)).2 c.clock true := rfl
-  have hm : c.clock ∈ (now ((c, {}) : St σo σc)).2.2.readings := now_mem _
-  refine ⟨verdictC12_of_prov ?_, ?_⟩
-  · rw [hr]
-    exact (rel_closeCircuit O C _ c.clock true hm).prov ((rel_now _).prov prov_init)
-  · rw [hr, closeCircuit_readings]
-    rfl
-
-/-- the times handed to the open/close logic's queries are readings of this call too: Allow and Prevent get the
-    start reading (the clock value when the call began) -/
-theorem queries_use_the_start_reading {σo σc : Type} (O : OpenerI σo) (C : CloserI σc) (c : Circ σo σc) (op : ExecOp)
-    (sc : Script) (hen : c.cfg.disabled = false) (hrun : op.run = some sc) :
-    (execute O C c op.ctx op.run op.fb).2.1.readings.head? = some c.clock := by
-  obtain ⟨l, hl⟩ := (execute_spec O C c op.ctx op.run op.fb hen).readings sc hrun
-  rw [hl]
-  rfl
-
-example : verdictC12 [.opened 77] [3] ≠ none := by decide   -- the monitor does reject a foreign timestamp
-
-end CM.Props.C12
+/- Props/C12.lean — property C12: all theorems live in namespace CM.Props.C12, split over two files. -/
+import CircuitProofs.Props.C12Base
+import CircuitProofs.Props.C12Ordered
